@@ -5918,6 +5918,48 @@ void psX509FreeDNStruct(x509DNattributes_t *dn, psPool_t *allocPool)
     There is nothing for the caller to free at the completion of this
     routine.
  */
+/*
+    Are a and b two parsed copies of the SAME certificate?  Compares the
+    signature algorithm, the to-be-signed part (its digest, or the buffered
+    TBSCertificate for algorithms that are not pre-hashed, e.g. Ed25519)
+    and the signature value.
+ */
+int32 psX509IsSameCert(const psX509Cert_t *a, const psX509Cert_t *b)
+{
+    if (a == NULL || b == NULL)
+    {
+        return PS_FALSE;
+    }
+    if (a->sigAlgorithm != b->sigAlgorithm ||
+        a->signatureLen != b->signatureLen ||
+        a->sigHashLen != b->sigHashLen)
+    {
+        return PS_FALSE;
+    }
+#  if defined(USE_ED25519) || defined(USE_ROT_ECC) || defined(USE_ROT_RSA) || (defined(USE_CL_RSA) && defined(USE_PKCS1_PSS))
+    if (a->tbsCertStart != NULL || b->tbsCertStart != NULL)
+    {
+        if (a->tbsCertStart == NULL || b->tbsCertStart == NULL ||
+            a->tbsCertLen != b->tbsCertLen ||
+            memcmpct(a->tbsCertStart, b->tbsCertStart, a->tbsCertLen) != 0)
+        {
+            return PS_FALSE;
+        }
+    }
+    else
+#  endif
+    if (a->sigHashLen == 0 ||
+        memcmpct(a->sigHash, b->sigHash, a->sigHashLen) != 0)
+    {
+        return PS_FALSE;
+    }
+    if (memcmpct(a->signature, b->signature, a->signatureLen) != 0)
+    {
+        return PS_FALSE;
+    }
+    return PS_TRUE;
+}
+
 int32 psX509AuthenticateCert(psPool_t *pool, psX509Cert_t *subjectCert,
     psX509Cert_t *issuerCert,  psX509Cert_t **foundIssuer,
     void *hwCtx, void *poolUserPtr)
@@ -6010,8 +6052,7 @@ int32 psX509AuthenticateCert(psPool_t *pool, psX509Cert_t *subjectCert,
                 Valid CA to load: i2 or root
                 Invalid CA to load: l or i1
              */
-            if (sc->signatureLen == ic->signatureLen
-                && memcmpct(sc->signature, ic->signature, sc->signatureLen) == 0)
+            if (sc != ic && psX509IsSameCert(sc, ic) == PS_TRUE)
             {
                 /* Skip some of the signature and issuer checks */
                 goto L_INTERMEDIATE_ROOT;
